@@ -119,7 +119,7 @@ def run(ctx, R, parts=('S', 'R', 'B')):
 
 
 # Iterator methods whose result is a function of the item sequence and that a base-case comparison can decide
-DECIDABLE_OVERRIDES = ('count', 'last', 'fold')
+DECIDABLE_OVERRIDES = ('count', 'last', 'fold', 'for_each', 'nth')
 IGNORED_OVERRIDES = ('size_hint',)        # only a capacity hint: no item, order or termination depends on it
 
 
@@ -168,26 +168,47 @@ def overrides(ctx, R, rule='C11.O'):
                 seq = [T.adt_field(first, '0')]           # an error item ends the walk (C11.R)
             else:
                 continue
-            if name == 'fold':
+            exp_log = None
+            nth_assume = []
+            if name == 'for_each':
+                # provided for_each: the supplied function is applied to each item in order, nothing else is observable
+                fv = P(ctx, pm, 1)
+                exp = T.UNIT
+                exp_log = ('tuple', tuple(('tuple', (fv, x)) for x in seq))
+            elif name == 'nth':
+                # provided nth(n): the n-th item (from 0) of the walk; with at most one item that is the first item for n = 0 and None otherwise
+                nv = P(ctx, pm, 1)
+                exp = None
+            elif name == 'fold':
                 # provided fold: init when there is no item, f(init, item) for one item (the supplied function's first application on the path)
                 init, fv = P(ctx, pm, 1), P(ctx, pm, 2)
                 exp = init if not seq else ('call', 'apply#0', (fv, init, seq[0]))
             else:
                 exp = I(len(seq)) if name == 'count' else (SOME(seq[-1]) if seq else NONE)
-            try:
-                evm, mouts = ctx.entry(pm, assume=assume, symbolic_fns=(name == 'fold'))
-            except Exception:
-                mouts = None
-            if not mouts:
-                continue
-            for mo in mouts:
-                r = mo['ret']
-                if T.has_opaque(r) or any(t[0] == 'mu' for t in T.subterms(r)):
-                    R.inst(rule, 'override/%s/%s/not-judged' % (name, cname), True, expected=exp, found='summary not closed-form', entry=pm, nontrivial=False)
+            cases = [(cname, assume, exp)]
+            if name == 'nth':
+                cases = [(cname + '/n=0', assume + [T.eq0(nv)], SOME(seq[0]) if seq else NONE), (cname + '/n>=1', assume + [T.cmp('Ge', nv, I(1))], NONE)]
+            for cname, assume, exp in cases:
+                try:
+                    evm, mouts = ctx.entry(pm, assume=assume, symbolic_fns=(name in ('fold', 'for_each')))
+                except Exception:
+                    mouts = None
+                if not mouts:
                     continue
-                ok = equal(r, exp) or match(r, exp) or (T.is_numeric(r) and T.is_numeric(exp) and solver.entails(mo['pc'], T.eq0(T.sub(r, exp))))
-                R.inst(rule, 'override/%s/%s' % (name, cname), ok, expected=exp, found=r, entry=pm,
-                       note=None if ok else 'next yields %s for this class; under %s' % ('no item' if not seq else T.short(seq[0]), pc_text(mo['pc'], 6)))
+                for mo in mouts:
+                    r = mo['ret']
+                    if exp_log is not None:
+                        got = mo['store'].get(('X', 'apply_log'), ('tuple', ()))
+                        okl = equal(got, exp_log) or match(got, exp_log)
+                        R.inst(rule, 'override/%s/%s/applications' % (name, cname), okl, expected=exp_log, found=got, entry=pm,
+                               note=None if okl else 'next yields %s for this class; under %s' % ('no item' if not seq else T.short(seq[0]), pc_text(mo['pc'], 6)))
+                        continue
+                    if T.has_opaque(r) or any(t[0] == 'mu' for t in T.subterms(r)) or any(T.has_opaque(a) or any(t[0] == 'mu' for t in T.subterms(a)) for a in mo['pc']):
+                        R.inst(rule, 'override/%s/%s/not-judged' % (name, cname), True, expected=exp, found='summary not closed-form', entry=pm, nontrivial=False)
+                        continue
+                    ok = equal(r, exp) or match(r, exp) or (T.is_numeric(r) and T.is_numeric(exp) and solver.entails(mo['pc'], T.eq0(T.sub(r, exp))))
+                    R.inst(rule, 'override/%s/%s' % (name, cname), ok, expected=exp, found=r, entry=pm,
+                           note=None if ok else 'next yields %s for this class; under %s' % ('no item' if not seq else T.short(seq[0]), pc_text(mo['pc'], 6)))
 
 
 def tys_strip(s):
